@@ -28,7 +28,7 @@ def pchals_of(mo):
 def gen_specs(run):
     rng = run.rng
     quick = run.tier == "quick"
-    confs = [(4, 2, 2), (8, 1, 1), (2, 4, 3), (16, 2, 1), (1, 2, 6), (32, 1, 2), (4, 4, 4), (2, 8, 5)]
+    confs = [(4, 2, 2), (8, 1, 1), (2, 4, 3), (16, 2, 1), (1, 2, 6), (32, 1, 2), (4, 4, 4), (2, 8, 5), (64, 1, 1), (64, 2, 2)]
     extra = gen.lattice(64 if quick else 256)
     rng.shuffle(extra)
     confs += extra[: (6 if quick else 100)]
@@ -69,6 +69,17 @@ def gen_specs(run):
             st = gen.stmt_of(mem)
             st["commit"][0], st["commit"][1] = st["commit"][1], st["commit"][0]
             add({"proof": 0, "stmt": st, "ctx": mem["ctx"]}, "V.swap", 0)
+        # promise encodings must be injective over the whole u64 range: neighbouring values at the top, in the middle and at the bottom of what the
+        # bit length admits (a promise beyond it is refused before any challenge is drawn), compared with each other rather than with the base run
+        top = (1 << 64) - 1 if b == 64 else (1 << b) - 1
+        for j in sorted({0, m - 1}):
+            for (x, y) in [(top - 1, top), (0, 1), (top >> 1, (top >> 1) + 1)] + ([(None, 1)] if top >= 1 else []):
+                if top < 1 or (x is not None and (x < 0 or y > top)):
+                    continue
+                for val, half in ((x, "a"), (y, "b")):
+                    st = gen.stmt_of(mem)
+                    st["promises"][j] = None if val is None else str(val)
+                    add({"proof": 0, "stmt": st, "ctx": mem["ctx"]}, f"pair{half}:{j}:{x}:{y}", 0)
         # proof points
         def dpoint(field, idx, first_diff, name):
             derived.append({"from": 0, "ops": [{"op": "point_set", "field": field, "idx": idx, "to": {"junk": rng.randrange(1 << 30)}}]})
@@ -145,8 +156,26 @@ def oracle(run, s, o):
     if len(base) != 3 + k or o["verifies"][0]["result"] != "ok":
         run.violation(f"base run: expected {3 + k} challenges and Ok, got {len(base)} and {o['verifies'][0]['result'][:60]}", rp)
         return
+    pending = {}
     for (tag, first), vo in zip(s["_tags"][1:], o["verifies"][1:]):
         if vo["result"].startswith("unavailable"):
+            continue
+        if tag.startswith("pair"):
+            half, j, x, y = tag[4:].split(":")
+            cs = chals_of(vo)
+            if half == "a":
+                pending[(j, x, y)] = cs
+                continue
+            ca = pending.get((j, x, y))
+            run.count(["c04pair", b, m, T, x == "None", int(y).bit_length()], {"bits": b, "m": m, "T": T, "promise_pair": [x, y], "position": int(j)})
+            run.bump("promise pairs")
+            if ca is None or len(ca) != len(cs) or not cs:
+                run.violation(f"promise {x} vs {y} at position {j}: {len(ca or [])} and {len(cs)} challenges derived (bits={b}, m={m}, T={T})", rp)
+            else:
+                for i in range(len(cs)):
+                    if ca[i] == cs[i]:
+                        run.violation(f"challenge #{i} is the same under promise {x} and promise {y} at position {j} (bits={b}, m={m}, T={T}): the promise is not bound injectively", rp)
+                        break
             continue
         cs = chals_of(vo)
         kind = tag.rstrip("0123456789")
